@@ -69,6 +69,7 @@ def run(prog, rep, tier):
     i1_structure(prog, rep, body, L)
     i1_callers(prog, rep)
     i2_i3(prog, rep, tier, body, L)
+    i4_slot_coherence(prog, rep, body)
     # "never a wrong position" rests on the decoders decode_position calls: the rules of C04 (global decoding) and
     # C05 (reference decoding) are evaluated under this property as well
     from props import c04, c05
@@ -146,6 +147,87 @@ def i1_structure(prog, rep, body, L):
               sample={'stores into *reference': len(writes), 'guard': 'update_reference(airborne) == true'})
 
 
+def i4_slot_coherence(prog, rep, body):
+    """I4 (after seed C06-s8): the cached report of a parity and its timestamp are one datum.  On every CFG path of
+    decode_position from entry to a return (through workspace helpers that receive the entry), the writes into
+    AircraftState.{even,odd}_ts and AircraftState.{even,odd}_msg come together: a path that stores one kind and
+    returns without the other leaves a fresh timestamp next to a stale report (or the reverse), and the 10 s
+    pairing window is then measured on the wrong report.  Parity is not distinguished (no correlation between two
+    `match parity` is assumed), only the kinds `ts` / `msg`."""
+    summaries = {}
+
+    def kind_of_store(b, pl):
+        steps = dataflow.place_steps(prog, b, pl)
+        if not steps:
+            return None
+        last = steps[-1]
+        if (last[0] or '').endswith('AircraftState') and last[2] in ('even_ts', 'odd_ts'):
+            return 'ts'
+        if (last[0] or '').endswith('AircraftState') and last[2] in ('even_msg', 'odd_msg'):
+            return 'msg'
+        return None
+
+    def summary(b, stack=()):
+        if b['id'] in summaries:
+            return summaries[b['id']]
+        if b['id'] in stack:
+            return {frozenset()}
+        blocks = b['blocks']
+        state = {0: {frozenset()}}
+        work = [0]
+        rets = set()
+        while work:
+            bi = work.pop()
+            cur = set(state[bi])
+            bb = blocks[bi]
+            for s_ in bb['s']:
+                if s_['k'] == 'assign':
+                    k = kind_of_store(b, s_['pl'])
+                    if k:
+                        cur = {x | {k} for x in cur}
+            t = bb['t']
+            succ = []
+            if t:
+                if t['k'] == 'call':
+                    c = t['callee'] or {}
+                    if t.get('dest') is not None:
+                        k = kind_of_store(b, t['dest'])
+                        if k:
+                            cur = {x | {k} for x in cur}
+                    wb = prog.bodies.get(c.get('rdid') or c.get('did'))
+                    if wb is not None and wb['kind'] in ('fn', 'closure') and wb['crate'] == b['crate'] and 'cpr' in wb['name']:
+                        sub = summary(wb, stack + (b['id'],))
+                        if sub != {frozenset()}:
+                            cur = {x | y for x in cur for y in sub}
+                    if t.get('t') is not None:
+                        succ = [t['t']]
+                elif t['k'] == 'return':
+                    rets |= cur
+                elif t['k'] == 'goto':
+                    succ = [t['t']]
+                elif t['k'] == 'switch':
+                    succ = [x[1] for x in t['vals']] + [t['otherwise']]
+                elif t['k'] in ('drop', 'assert'):
+                    succ = [t['t']]
+            for s2 in succ:
+                old = state.get(s2, set())
+                new = old | cur
+                if new != old:
+                    state[s2] = new
+                    work.append(s2)
+        summaries[b['id']] = rets or {frozenset()}
+        return summaries[b['id']]
+    paths = summary(body)
+    site = '%s:%s' % (body['file'], body['line'])
+    rep.floor('write patterns of decode_position on the parity slots', len(paths), 2)
+    rep.check(frozenset(('ts', 'msg')) in paths, 'I4-slot-coherence', 'decode_position#stores-both', site,
+              'no path of decode_position stores both a report and its timestamp into the aircraft entry (patterns: %s)' % sorted(map(sorted, paths)))
+    for pth in sorted(paths, key=sorted):
+        rep.check(pth in (frozenset(), frozenset(('ts', 'msg'))), 'I4-slot-coherence', 'decode_position#path-writes-%s' % ('+'.join(sorted(pth)) or 'nothing'), site,
+                  'a path of decode_position returns after storing only the %s of a parity slot: the cached report and its timestamp no longer belong together' % ' / '.join(sorted(pth)),
+                  sample={'pattern': sorted(pth)})
+
+
 def i1_callers(prog, rep):
     n = 0
     for b in prog.bodies.values():
@@ -220,6 +302,41 @@ def i1_callers(prog, rep):
             rep.check(ok, 'I1-isolation', 'caller#%s#%d' % (b['name'], bi), '%s:%s' % (b['file'], t.get('sp')),
                       'decode_position must receive the message and the address of the same record: ' + why,
                       sample={'caller': b['name'], 'pair': why} if n <= 2 else None)
+            # the timestamp handed over is the record's own reception time: a copy of <TimedMessage>.timestamp
+            # (added after seed C06-s7, which passed a running maximum over all aircraft instead)
+            def ts_defs(op, seen=None, depth=0):
+                seen = seen if seen is not None else set()
+                if op['k'] == 'const':
+                    return ['a constant']
+                pl = op['pl']
+                steps = dataflow.place_steps(prog, b, pl)
+                if steps:
+                    last = steps[-1]
+                    return [] if ((last[0] or '').endswith('TimedMessage') and last[2] == 'timestamp') else ['%s.%s' % ((last[0] or '?').split('::')[-1], last[2])]
+                if pl['p'] or pl['l'] in seen or depth > 8:
+                    return ['an untracked place']
+                seen.add(pl['l'])
+                if 1 <= pl['l'] <= b['argc']:
+                    return ['parameter _%d' % pl['l']]
+                bad, nd = [], 0
+                for bb2 in b['blocks']:
+                    for s_ in bb2['s']:
+                        if s_['k'] == 'assign' and s_['pl']['l'] == pl['l'] and not s_['pl']['p']:
+                            nd += 1
+                            rv = s_['rv']
+                            if rv['k'] == 'use':
+                                bad += ts_defs(rv['op'], seen, depth + 1)
+                            else:
+                                bad.append('a computed value (%s)' % rv['k'])
+                    t2 = bb2['t']
+                    if t2 and t2['k'] == 'call' and t2.get('dest') and t2['dest']['l'] == pl['l'] and not t2['dest']['p']:
+                        nd += 1
+                        bad.append('the result of %s' % ((t2['callee'] or {}).get('name') or 'a call'))
+                return bad if nd else ['an undefined temporary']
+            tsbad = ts_defs(t['args'][1])
+            rep.check(not tsbad, 'I1-isolation', 'caller#%s#%d#timestamp' % (b['name'], bi), '%s:%s' % (b['file'], t.get('sp')),
+                      'decode_position must receive the reception time of the record it decodes (a copy of TimedMessage.timestamp); it receives %s' % sorted(set(tsbad)),
+                      sample={'caller': b['name'], 'timestamp': 'TimedMessage.timestamp'} if n <= 2 else None)
     rep.floor('call sites of decode_position', n, 3)
 
 
